@@ -243,6 +243,12 @@ CORRUPTIONS = [
     ("init fact whose object has a non-conforming type", {"init": "(p u1)"}),
     ("init fact whose object has a supertype of the required type", {"init": "(s x1)", "objects": "o1 o2 - t1 o3 - t3 u1 - t2 x1 - object"}),
     ("init fluent whose object has a non-conforming type", {"init": "(= (f u1) 1)"}),
+    # round 20: the domain constant k - t1 where another type is required (a type check that exempts constants)
+    ("init fact whose domain constant has a non-conforming type", {"init": "(s k)"}),
+    ("init fact whose domain constant has a supertype of the required type", {"init": "(m k o1)"}),
+    ("goal literal whose domain constant has a non-conforming type", {"goal": "(s k)"}),
+    ("goal literal whose domain constant has a supertype of the required type", {"goal": "(m k o1)"}),
+    ("init fluent over a constant and an object of a non-conforming type", {"init": "(= (h k u1) 1)"}),
     ("second argument of a non-conforming type", {"init": "(q o1 u1)"}),
     ("first argument of a supertype of the required type", {"init": "(m o1 o3)"}),
     ("repeated object that fits the last position only", {"init": "(m o1 o1)"}),
